@@ -409,6 +409,19 @@ impl SessionManager {
             count_before + inserted as usize,
             "forward count must advance by exactly 1 on first track, 0 on a repeat"
         );
+        #[cfg(sozu_verif)]
+        if crate::verif::enabled() {
+            crate::verif::emit_s(
+                "sm_track",
+                &[
+                    ("token", token.0 as i64),
+                    ("inserted", inserted as i64),
+                    ("count", (count_before + inserted as usize) as i64),
+                    ("limit", self.max_connections_per_ip as i64),
+                ],
+                &[("cluster", cluster_id.clone()), ("ip", ip.to_string())],
+            );
+        }
         #[cfg(debug_assertions)]
         self.check_invariants();
     }
@@ -423,6 +436,14 @@ impl SessionManager {
         let Some(by_cluster) = self.cluster_ip_tracks.remove(&token) else {
             return;
         };
+        #[cfg(sozu_verif)]
+        crate::verif::emit(
+            "sm_untrack_all",
+            &[
+                ("token", token.0 as i64),
+                ("n", by_cluster.values().map(|ips| ips.len()).sum::<usize>() as i64),
+            ],
+        );
         // The reverse index for this token was just drained by `remove`; no
         // other code path re-inserts it within this call.
         debug_assert!(
@@ -464,6 +485,8 @@ impl SessionManager {
     /// feature does not leave dead bookkeeping behind that a future
     /// re-enable would consult.
     pub fn clear_cluster_ip_tracking(&mut self) {
+        #[cfg(sozu_verif)]
+        crate::verif::emit("sm_clear", &[]);
         self.cluster_ip_tracks.clear();
         self.connections_per_cluster_ip.clear();
         // Both halves of the per-(cluster, ip) accounting are now empty; a
@@ -489,6 +512,44 @@ impl SessionManager {
     #[cfg(sozu_verif)]
     pub fn verif_per_ip_tokens(&self) -> usize {
         self.cluster_ip_tracks.len()
+    }
+
+    /// Verification hook: sorted `(cluster, ip, count)` table and sorted
+    /// `(token, cluster, ip)` reverse index.
+    #[cfg(sozu_verif)]
+    #[allow(clippy::type_complexity)]
+    pub fn verif_per_ip_tables(&self) -> (Vec<(String, IpAddr, usize)>, Vec<(usize, String, IpAddr)>) {
+        let mut counts = Vec::new();
+        for (cluster, by_ip) in &self.connections_per_cluster_ip {
+            for (ip, n) in by_ip {
+                counts.push((cluster.clone(), *ip, *n));
+            }
+        }
+        counts.sort();
+        let mut tracks = Vec::new();
+        for (token, by_cluster) in &self.cluster_ip_tracks {
+            for (cluster, ips) in by_cluster {
+                for ip in ips {
+                    tracks.push((token.0, cluster.clone(), *ip));
+                }
+            }
+        }
+        tracks.sort();
+        (counts, tracks)
+    }
+
+    #[cfg(sozu_verif)]
+    fn verif_emit(&self, kind: &'static str, extra: &[(&'static str, i64)]) {
+        if !crate::verif::enabled() {
+            return;
+        }
+        let mut nums = vec![
+            ("nb", self.nb_connections as i64),
+            ("can_accept", self.can_accept as i64),
+            ("slab", self.slab.len() as i64),
+        ];
+        nums.extend_from_slice(extra);
+        crate::verif::emit(kind, &nums);
     }
 
     /// The slab is considered at capacity if it contains more sessions than twice max_connections
@@ -537,6 +598,8 @@ impl SessionManager {
                 !self.can_accept,
                 "refusing at the cap must clear can_accept"
             );
+            #[cfg(sozu_verif)]
+            self.verif_emit("sm_check_limits", &[("res", 0)]);
             return false;
         }
 
@@ -553,6 +616,8 @@ impl SessionManager {
                 !self.can_accept,
                 "refusing at slab capacity must clear can_accept"
             );
+            #[cfg(sozu_verif)]
+            self.verif_emit("sm_check_limits", &[("res", 0)]);
             return false;
         }
 
@@ -561,6 +626,8 @@ impl SessionManager {
             self.nb_connections < self.max_connections && !self.at_capacity(),
             "check_limits returned room while a gate was actually saturated"
         );
+        #[cfg(sozu_verif)]
+        self.verif_emit("sm_check_limits", &[("res", 1)]);
         true
     }
 
@@ -584,6 +651,8 @@ impl SessionManager {
         // `client.connections` per-event preserves the high-resolution
         // signal scrapers expect.
         gauge!(names::client::CONNECTIONS, self.nb_connections);
+        #[cfg(sozu_verif)]
+        self.verif_emit("sm_incr", &[]);
     }
 
     /// Decrements the number of sessions, start accepting new connections
@@ -609,6 +678,8 @@ impl SessionManager {
             gauge!(names::accept_queue::BACKPRESSURE, 0);
             self.can_accept = true;
         }
+        #[cfg(sozu_verif)]
+        self.verif_emit("sm_decr", &[]);
     }
 
     /// Full cross-field invariant sweep for the session manager. Called as a
@@ -1456,6 +1527,10 @@ impl Server {
 
         let zombie_count = zombie_tokens.len() as i64;
         count!(names::misc::ZOMBIES, zombie_count);
+        #[cfg(sozu_verif)]
+        if zombie_count > 0 {
+            crate::verif::emit("zombie_sweep", &[("zombies", zombie_count)]);
+        }
 
         let remaining_count = self.shut_down_sessions_by_frontend_tokens(zombie_tokens);
         info!(
@@ -1477,6 +1552,15 @@ impl Server {
                 let slab_before = self.sessions.borrow().slab.len();
                 let session = { self.sessions.borrow_mut().slab.remove(token.0) };
                 session.borrow_mut().close();
+                #[cfg(sozu_verif)]
+                crate::verif::emit(
+                    "session_close",
+                    &[
+                        ("token", token.0 as i64),
+                        ("slab_before", slab_before as i64),
+                        ("slab", self.sessions.borrow().slab.len() as i64),
+                    ],
+                );
                 self.sessions.borrow_mut().decr();
                 // The removed token is truly gone afterwards. The slab may shrink
                 // by MORE than one: `close()` also frees the session's backend
@@ -1509,6 +1593,16 @@ impl Server {
                 sessions.slab.remove(entry_key);
                 dangling_entries_count += 1;
             }
+        }
+        #[cfg(sozu_verif)]
+        if dangling_entries_count > 0 {
+            crate::verif::emit(
+                "close_sweep",
+                &[
+                    ("dangling", dangling_entries_count as i64),
+                    ("slab", self.sessions.borrow().slab.len() as i64),
+                ],
+            );
         }
         // Postcondition: no surviving slab entry still references any of the
         // closed frontend tokens — both the direct remove and the dangling
@@ -1993,6 +2087,11 @@ impl Server {
                 if *limit == 0 {
                     sessions.clear_cluster_ip_tracking();
                 }
+                #[cfg(sozu_verif)]
+                crate::verif::emit(
+                    "sm_set_per_ip_limit",
+                    &[("limit", *limit as i64), ("previous", previous as i64)],
+                );
                 info!(
                     "{} updated global max_connections_per_ip from {} to {}",
                     message.id, previous, limit
@@ -2979,6 +3078,16 @@ impl Server {
                         queue_before + 1,
                         "each accepted socket must enqueue exactly one entry"
                     );
+                    #[cfg(sozu_verif)]
+                    crate::verif::emit(
+                        "accept_push",
+                        &[
+                            ("listener", token.0 as i64),
+                            ("port", peer.map(|p| p.port() as i64).unwrap_or(-1)),
+                            ("queue", self.accept_queue.len() as i64),
+                            ("can_accept", self.sessions.borrow().can_accept as i64),
+                        ],
+                    );
                 }
                 Err(AcceptError::WouldBlock) => {
                     self.accept_ready.remove(&token);
@@ -2999,9 +3108,23 @@ impl Server {
     }
 
     pub fn create_sessions(&mut self) {
+        #[cfg(sozu_verif)]
+        let verif_queue_at_entry = self.accept_queue.len();
         while let Some((sock, token, protocol, timestamp, _peer)) = self.accept_queue.pop_back() {
             let wait_time = Instant::now() - timestamp;
             time!(names::accept_queue::WAIT_TIME, wait_time.as_millis());
+            #[cfg(sozu_verif)]
+            crate::verif::emit(
+                "create_pop",
+                &[
+                    ("port", _peer.map(|p| p.port() as i64).unwrap_or(-1)),
+                    ("listener", token.0 as i64),
+                    ("wait_ms", wait_time.as_millis() as i64),
+                    ("timeout_ms", self.accept_queue_timeout.as_millis() as i64),
+                    ("timed_out", (wait_time > self.accept_queue_timeout) as i64),
+                    ("queue", self.accept_queue.len() as i64),
+                ],
+            );
             if wait_time > self.accept_queue_timeout {
                 incr!(names::accept_queue::TIMEOUT);
                 continue;
@@ -3036,6 +3159,8 @@ impl Server {
                 // not `max_connections`).
                 let to_evict = (self.sessions.borrow().max_connections / 100).max(1);
                 let evicted = self.evict_least_active_sessions(to_evict);
+                #[cfg(sozu_verif)]
+                crate::verif::emit("evict", &[("asked", to_evict as i64), ("evicted", evicted as i64)]);
                 if evicted == 0 {
                     // Informational, not an invariant break: the worker may
                     // be at boot, or every active session is a system
@@ -3106,12 +3231,30 @@ impl Server {
                 _ => panic!("should not call accept() on a HTTP, HTTPS or TCP session"),
             };
             let nb_before = self.sessions.borrow().nb_connections;
+            #[cfg(sozu_verif)]
+            crate::verif::emit(
+                "create_done",
+                &[
+                    ("port", _peer.map(|p| p.port() as i64).unwrap_or(-1)),
+                    ("slab", self.sessions.borrow().slab.len() as i64),
+                ],
+            );
             self.sessions.borrow_mut().incr();
             // A successfully created session bumps the live count by one.
             debug_assert_eq!(
                 self.sessions.borrow().nb_connections,
                 nb_before + 1,
                 "create_sessions must account exactly one new connection per created session"
+            );
+        }
+        #[cfg(sozu_verif)]
+        if verif_queue_at_entry > 0 {
+            crate::verif::emit(
+                "create_loop_end",
+                &[
+                    ("queue", self.accept_queue.len() as i64),
+                    ("slab", self.sessions.borrow().slab.len() as i64),
+                ],
             );
         }
 
